@@ -155,6 +155,13 @@ pub fn replay(s: &mut Summary, v: &V) {
             }
         }
     }
+    // a base that does not fit u32 (the struct stores the start offset in a u32): OffsetInv (so = base + lo) must
+    // hold for it as well; checked once per original string, at the initial state (C13 only: KH_BIG_BASE)
+    if base == 10 && v["path"].as_array().unwrap().is_empty() && std::env::var("KH_BIG_BASE").is_ok() {
+        let big = (1usize << 32) + 10;
+        let q = Parser::with_start_offset(orig, big);
+        s.check("Parser::with_start_offset(base >= 2^32)", json!([q.start_offset(), q.end_offset()]), &json!([big, big + orig.len()]));
+    }
     let st = &v["st"];
     let exp_st = json!({"lo": st["lo"], "hi": st["hi"], "so": st["so"],
                         "eo": st["so"].as_u64().unwrap() + st["hi"].as_u64().unwrap() - st["lo"].as_u64().unwrap(),
